@@ -141,7 +141,7 @@ func runJudge(c *core.Ctx, lines []*Line) (map[string]any, error) {
 	}
 	var vs []verdict
 	var perr error
-	res, err := tlc.Run(tlc.Opts{SpecDir: c.SpecDir, Module: "C14Judge", Cfg: cfgText(c), Workers: c.Workers, Timeout: 10 * time.Minute,
+	res, err := tlc.Run(tlc.Opts{SpecDir: c.SpecDir, Module: "C14Judge", Cfg: cfgText(c, false), Workers: c.Workers, Timeout: 10 * time.Minute,
 		Files: map[string][]byte{"trace.ndjson": buf.Bytes()}},
 		func(p []byte) {
 			var v verdict
